@@ -333,6 +333,12 @@ def grid_cases():
                         yield {'ops': [['new', t, {n: e}, 'from_str']], 'grid_edge': True}
                     yield {'ops': [['new', t, {}, 'ctor'], ['copy', {n: e}, True]], 'grid_edge': True}
                 yield {'ops': [['new', t, {}, 'ctor'], ['set', n, e], ['set', 'time', 1]], 'grid_edge': True}
+        # the name of the constructor's option is not an attribute: a TEXT cannot switch validation off
+        for e in (0, 1):
+            yield {'ops': [['new', t, {'skip_checks': e}, 'from_str']], 'grid_edge': True}
+            for n in names[:1]:
+                if n in R.RANGES:
+                    yield {'ops': [['new', t, {'skip_checks': e, n: R.RANGES[n][1] + 1}, 'from_str']], 'grid_edge': True}
         for n in names + ['type', 'foo']:
             yield {'ops': [['new', t, {}, 'ctor'], ['del', n], ['set', 'time', 2]], 'grid_edge': True}
         for t2 in (t, 'note_off' if t != 'note_off' else 'clock', 'bogus', 1, None):
